@@ -164,6 +164,59 @@ def o_exact(spec):
 
 
 @st.composite
+def exact_wide_cases(draw, tier):
+    """Registers of 9-10 (11 thorough) qubits: a basis-state preparation plus a few rotations / entanglers; Ising and general
+    operators whose terms reach the lowest- and the highest-numbered qubits."""
+    n = draw(st.sampled_from([9, 9, 10] if tier == "quick" else [9, 10, 11]))
+    ops = [{"g": "X", "p": [], "mods": [], "q": [q]} for q in range(n) if draw(st.booleans())]
+    for _ in range(draw(st.integers(0, 3))):
+        nm = draw(st.sampled_from(["RY", "RX", "H", "CNOT", "XX", "SWAP"]))
+        perm = draw(st.permutations(list(range(n))))
+        ops.append({"g": nm, "p": [draw(cgen.angles()) for _ in range(cgen.TABLE[nm][1])], "mods": [], "q": list(perm[: cgen.TABLE[nm][0]])})
+    terms = []
+    ising = draw(st.booleans())
+    for _ in range(draw(st.integers(1, 4))):
+        qs = draw(st.lists(st.one_of(st.integers(0, n - 1), st.integers(0, 1), st.integers(n - 2, n - 1)), unique=True, min_size=1, max_size=3))
+        terms.append({"ops": [[q, "Z" if ising else draw(st.sampled_from("XYZ"))] for q in sorted(qs)],
+                      "c": draw(pgen.coefs(zero=False, kinds=("int", "float")))})
+    return {"n": n, "ops": ops, "terms": terms, "seed": draw(st.integers(0, 1000)), "as_term": draw(st.booleans())}
+
+
+def o_exact_wide(spec):
+    from orquestra.quantum.api.estimation import EstimationTask
+    from orquestra.quantum.circuits import Circuit
+    from orquestra.quantum.estimation import calculate_exact_expectation_values
+    from orquestra.quantum.runners import SymbolicSimulator
+    from vlib import ref
+
+    n = spec["n"]
+    c = Circuit([cgen.build_gate(o)(*o["q"]) for o in spec["ops"]], n)
+    psi = np.zeros(2 ** n, dtype=complex)
+    psi[0] = 1
+    for o in spec["ops"]:
+        psi = ref.embed_apply(cgen.ref_gate_matrix(o), o["q"], n, psi)
+    op = pgen.build_sum({"terms": spec["terms"]})
+    if spec["as_term"] and len(spec["terms"]) == 1:
+        op = pgen.build_term(spec["terms"][0])
+    want = 0
+    for key, cf in pgen.canon_sum({"terms": spec["terms"]}).items():
+        v = psi
+        for q, letter in key:
+            v = ref.embed_apply(ref.PAULI[letter], [q], n, v)
+        want = want + cf * np.vdot(psi, v)
+    res = must(lambda: calculate_exact_expectation_values(SymbolicSimulator(seed=spec["seed"]), [EstimationTask(op, c, None)]), "calculate_exact_expectation_values")
+    v = np.ravel(res[0].values)
+    scale = max(1.0, pgen.canon_norm(pgen.canon_sum({"terms": spec["terms"]})))
+    require(len(res) == 1 and len(v) == 1 and abs(v[0] - np.real(want)) <= 1e-8 * scale,
+            lambda: f"{n} qubits: exact expectation {v} of {op!r}, the state's quadratic form gives {np.real(want)}")
+    ex = must(lambda: SymbolicSimulator().get_exact_expectation_values(c, op), "get_exact_expectation_values")
+    require(abs(ex - np.real(want)) <= 1e-8 * scale, lambda: f"{n} qubits: simulator's exact expectation {ex}, quadratic form gives {np.real(want)}")
+    zonly = all(p == "Z" for t in spec["terms"] for _, p in t["ops"])
+    low = any(q <= n - 9 for t in spec["terms"] for q, _ in t["ops"])
+    return {"classes": (["ising"] if zonly else ["general"]) + (["term_on_qubit<=n-9"] if low else []), "nontrivial": low}
+
+
+@st.composite
 def bind_cases(draw, tier):
     tasks = []
     for _ in range(draw(st.integers(0, 4))):
@@ -211,6 +264,8 @@ SUBCHECKS = [
              rule="estimate_expectation_values_by_averaging / split_estimation_tasks_to_measure on mixed task lists"),
     SubCheck("exact", o_exact, strategy=exact_cases, examples=(150, 800), shards=(4, 12), fork_timeout=60,
              rule="calculate_exact_expectation_values == quadratic form, one value per task in order"),
+    SubCheck("exact_wide", o_exact_wide, strategy=exact_wide_cases, examples=(12, 60), shards=(8, 16), fork_timeout=120,
+             rule="exact expectation values on registers of 9-10 (11) qubits vs the quadratic form computed with a state-vector reference; non-trivial = a term on a qubit <= n-9"),
     SubCheck("bind_tasks", o_bind, strategy=bind_cases, examples=(150, 800), shards=(2, 8),
              rule="evaluate_estimation_circuits binds task i's circuit with map i and changes nothing else"),
 ]
